@@ -75,3 +75,66 @@ func sameOwner(rep *core.Report, rounds int) {
 			map[string]any{"kind": "same-owner"})
 	}
 }
+
+// releaseAll: the release-everything paths (close of the -shm descriptor: DB.UnlockSHM; close of the database
+// descriptor: DB.UnlockDatabase) end every lock of the owner on that file, shared or exclusive: afterwards
+// another owner obtains each of them exclusively.
+func releaseAll(rep *core.Report) {
+	dir := core.Scratch("c12-releaseall")
+	defer os.RemoveAll(dir)
+	n, err := sim.OpenNode(sim.NodeOpts{Dir: dir, Primary: true})
+	if err != nil {
+		core.Infra("open node: %v", err)
+	}
+	defer n.Close()
+	c := n.Connect("db", 5)
+	if err := c.OpenDB(true); err != nil {
+		core.Infra("create db: %v", err)
+	}
+	db := n.Store.DB("db")
+	ctx := context.Background()
+	shm := []litefs.LockType{litefs.LockTypeWrite, litefs.LockTypeCkpt, litefs.LockTypeRecover, litefs.LockTypeRead0, litefs.LockTypeRead1,
+		litefs.LockTypeRead2, litefs.LockTypeRead3, litefs.LockTypeRead4, litefs.LockTypeDMS}
+	dbl := []litefs.LockType{litefs.LockTypePending, litefs.LockTypeShared, litefs.LockTypeReserved}
+	for _, excl := range []bool{false, true} {
+		for _, file := range []string{"shm", "database"} {
+			set := shm
+			if file == "database" {
+				set = dbl
+			}
+			const a, b = 5001, 5002
+			for _, t := range set {
+				ok := false
+				if excl {
+					ok, _ = db.TryLocks(ctx, a, []litefs.LockType{t})
+				} else {
+					ok = db.TryRLocks(ctx, a, []litefs.LockType{t})
+				}
+				if !ok {
+					core.Infra("release-all: owner could not take %s on an idle database", t)
+				}
+			}
+			if file == "shm" {
+				db.UnlockSHM(ctx, a)
+			} else {
+				db.UnlockDatabase(ctx, a)
+			}
+			var stuck []string
+			for _, t := range set {
+				rep.Eval(1)
+				if ok, _ := db.TryLocks(ctx, b, []litefs.LockType{t}); !ok {
+					stuck = append(stuck, t.String())
+				} else {
+					_ = db.Unlock(ctx, b, []litefs.LockType{t})
+				}
+			}
+			rep.Case(fmt.Sprintf("release-all/%s/exclusive=%v", file, excl), true)
+			if len(stuck) > 0 {
+				rep.Violate("C12.unlock-releases", fmt.Sprintf("release-all/%s/exclusive=%v", file, excl),
+					map[string]any{"file": file, "held_exclusively": excl, "still_held_after_release_all": stuck}, map[string]any{"kind": "release-all"})
+				// clean up so that the next round starts from an idle database
+				_ = db.Unlock(ctx, a, set)
+			}
+		}
+	}
+}
